@@ -148,6 +148,21 @@ example : (run exFe [] [(1, 5), (2, 6)] (.forQ 0 (.op (.cons (.lit 1) (.cons (.l
 /-- call of the inferred-Modifying function inside a function argument: flagged -/
 example : stmtCaps exFe (.query (.call 0 (.cons (.call 2 .nil) .nil))) = .ok MODIFICATIONS := by decide
 
+/-- a function whose only DML sits in a WITH binding of its body (`with x := mklog() select x`,
+volatility omitted) is Modifying, so is a function that merely calls it, and `select g()` is flagged -/
+example :
+    (match declare exFe none [] (.withB 1 (.call 1 .nil) (.var 1)) with
+     | .ok fe4 =>
+       match declare fe4 none [] (.call 3 .nil) with
+       | .ok fe5 => fnModifying fe5 3 && fnModifying fe5 4 &&
+           (stmtCaps fe5 (.query (.call 4 .nil)) == .ok MODIFICATIONS)
+       | .error _ => false
+     | .error _ => false) = true := by decide
+
+/-- declaring such a function with a lower volatility is rejected -/
+example : (match declare exFe (some false) [] (.withB 1 (.call 1 .nil) (.var 1)) with
+    | .error .volatility => true | _ => false) = true := by decide
+
 /-- DML in a FILTER clause is rejected, a read-only query is unflagged and pure -/
 example : stmtCaps exFe (.query (.select (.objs 1) .nil (.cons (.call 1 .nil) .nil) .nil .nil))
     = .error .clause := by decide
